@@ -199,6 +199,7 @@ def inverse1d(ctx, rng, idx):
     gam = float(rng.choice([1.4, 5 / 3, 1.2, 2.0, np.round(rng.uniform(1.05, 2.0), 3)]))
     gm = gam - 1
     model = euler.euler1d(gamma=gam)
+    gen.maybe_decoy(rng)
     d = int(rng.choice([-1, 1]))
     name = ["insub", "insub_cbc", "insup", "outsub", "outsub_qtot", "outsub_nrcbc", "outsub_rh", "outsup", "sym", "outsub_prim"][idx % 10]
     n = 64
@@ -281,6 +282,7 @@ def inverse2d(ctx, rng, idx):
     gam = float(rng.choice([1.4, 5 / 3, 1.2]))
     gm = gam - 1
     model = euler.euler2d(gamma=gam)
+    gen.maybe_decoy(rng)
     name = ["sym", "insub", "insup", "outsub", "outsup", "insup-angle"][idx % 6]
     n = 32
     side = int(rng.integers(4))
